@@ -299,7 +299,7 @@ def rule_undefined_names(ctx, rule, skip_files=('rebound/horizons.py', 'rebound/
                 else:
                     visit(ch, outer)
         visit(top, set())
-    ctx.covered(rule, 'functions of the Python layer: every global name they load is bound at module level or is a builtin', n, floor=300)
+    ctx.covered(rule, 'functions of the Python layer: every global name they load is bound at module level or is a builtin', n, floor=200)
 
 
 def rule_keyword_constructor(ctx, rule, cls='Simulation', keywords=('filename',)):
